@@ -28,7 +28,7 @@ ASSUMPTIONS = [
     "values are only referenced from the graph that defines them or from graphs nested in it (ONNX scoping)",
     "holds on the cases explored only",
 ]
-BUDGET = {"quick": (16, 1500), "thorough": (16, 25000)}
+BUDGET = {"quick": (16, 2500), "thorough": (16, 25000)}
 
 
 def strategy(tier, phase):
